@@ -50,6 +50,26 @@ impl TypeCollector {
         }
     }
 
+    /// The struct table without the project types that a type mapping replaces.
+    ///
+    /// A mapped type is rendered as its mapped TypeScript type wherever it occurs, so it is
+    /// neither declared itself nor followed to the types its fields mention.
+    pub fn without_mapped_types(
+        all_structs: &HashMap<String, StructInfo>,
+        config: &GenerateConfig,
+    ) -> HashMap<String, StructInfo> {
+        all_structs
+            .iter()
+            .filter(|(name, _)| {
+                !config
+                    .type_mappings
+                    .as_ref()
+                    .is_some_and(|mappings| mappings.contains_key(*name))
+            })
+            .map(|(k, v)| (k.clone(), v.clone()))
+            .collect()
+    }
+
     /// Filter only the types used by commands
     pub fn collect_used_types(
         &self,
